@@ -5,8 +5,9 @@ import sys, subprocess, shutil, os, tempfile
 unit, rel = sys.argv[1], sys.argv[2]
 spec = sys.stdin.read().split('\n====\n')
 tmp = tempfile.mkdtemp(prefix='mut_')
-subprocess.run(['rsync', '-a', '--exclude', 'target', '--exclude', '.git', '/repo/', tmp + '/'], check=True)
-src = open('/repo/' + rel).read()
+SRC = os.environ.get('MUT_SRC', '/repo')
+subprocess.run(['rsync', '-a', '--exclude', 'target', '--exclude', '.git', SRC + '/', tmp + '/'], check=True)
+src = open(SRC + '/' + rel).read()
 for m in spec:
     if not m.strip():
         continue
